@@ -173,7 +173,12 @@ func (g *c02Gen) list(depth int, inBlock bool) (string, string) {
 			}
 			bs, be := g.list(depth-1, true)
 			g.n++
-			switch g.r.Intn(9) {
+			switch g.r.Intn(10) {
+			case 9:
+				// a function whose body emits text and then returns a value
+				fmt.Fprintf(&src, "<%% let f%d = fn() { %%>%s<%% return raw(\"R%d\") %%><%% } %%><%%= f%d() %%>", g.n, bs, g.n, g.n)
+				exp.WriteString(be + fmt.Sprintf("R%d", g.n))
+				g.classes["block:fn-with-return"] = true
 			case 0:
 				src.WriteString("<%= if (true) { %>" + bs + "<% } %>")
 				exp.WriteString(be)
